@@ -369,7 +369,9 @@ namespace ip {
 		if (m_bound_to.address() == ip::address())
 		{
 			auto endpoint = ip::tcp::endpoint();
-			if (target.address().is_v4()) {
+			// bind to the wildcard address of the socket's own family. A target of
+			// the other family is rejected below
+			if (m_is_v4) {
 				endpoint.address(ip::address_v4::any());
 			} else {
 				endpoint.address(ip::address_v6::any());
